@@ -201,3 +201,41 @@ def bounds(tier):
                 max_elements=8, max_rank=3, composition_ops="3..6 (quick) / 3..9 (thorough)",
                 owner_vectors="covering rotation over {0,1,2,public,shared}^n, n<=3", output_sets="all 8 subsets (ordered variants in thorough)",
                 inline_modes=MODES)
+
+
+# ---------------------------------------------------------------- programs with bit-level protocols
+def bool_templates():
+    """name -> (input types builder(st) , body). These reach A2BMPC/B2AMPC (binary adders over shares),
+    private MixedMultiply (oblivious transfer), TruncateMPC2K, the permutation/sort protocols."""
+    t = {}
+
+    def reg(name, in_types, f):
+        t[name] = (in_types, f)
+
+    reg("a2b", lambda st: [A((2,), st)], lambda g, x, st: g.a2b(x[0]))
+    reg("b2a", lambda st: [A((2, bits(st)), "bit")], lambda g, x, st: g.b2a(x[0], st))
+    reg("a2b_b2a_sum", lambda st: [A((2,), st), A((2,), st)], lambda g, x, st: g.b2a(g.a2b(g.add(x[0], x[1])), st))
+    reg("mixed_mul", lambda st: [A((2,), st), A((2,), "bit")], lambda g, x, st: g.mixed_mul(x[0], x[1]))
+    reg("mixed_mul_chain", lambda st: [A((2,), st), A((2,), "bit"), A((2,), st)], lambda g, x, st: g.mul(g.mixed_mul(x[0], x[1]), x[2]))
+    reg("bit_and_xor", lambda st: [A((3,), "bit"), A((3,), "bit"), A((3,), "bit")], lambda g, x, st: g.add(g.mul(x[0], x[1]), x[2]))
+    reg("truncate_pow2", lambda st: [A((2,), st)], lambda g, x, st: g.truncate(x[0], 4))
+    reg("truncate_after_mul", lambda st: [A((2,), st), A((2,), st)], lambda g, x, st: g.truncate(g.mul(x[0], x[1]), 2))
+    reg("apply_perm", lambda st: [A((3,), st), A((3,), "u64")], lambda g, x, st: g.apply_permutation(x[0], x[1]))
+    reg("sort", lambda st: [T.ntuple([("k", A((3, 2), "bit")), ("v", A((3,), st))])], lambda g, x, st: g.sort(x[0], "k"))
+    return t
+
+
+def bits(st):
+    from .cctypes import st_bits
+    return st_bits(st)
+
+
+def instantiate_bool(name, spec, st):
+    tys, f = spec
+    in_types = tys(st)
+
+    def build(g):
+        xs = [g.input(t) for t in in_types]
+        return f(g, xs, st)
+
+    return single_graph(build), in_types
